@@ -48,10 +48,32 @@ class AppendOnlyStream(object):
 
 def new_writer(main_encoding='utf-8', stream=None):
     s = stream if stream is not None else AppendOnlyStream()
-    return DiffXWriter(s, encoding=main_encoding), s
+    return DiffXWriter(s, encoding=fresh(main_encoding)), s
+
+
+def fresh(x):
+    """A new, non-interned object equal to x (str / bytes / containers).
+    Literals in this harness are interned and therefore IDENTICAL to the
+    library's own constants ('dos' is LineEndings.DOS); values that reach
+    the library in real use (parsed from a header, read from a config) are
+    not. Passing fresh copies makes identity-based comparisons in the
+    library visible and makes runs and replays (which rebuild values from
+    JSON) behave alike."""
+    if isinstance(x, str) and type(x) is str:
+        return ''.join(list(x)) if len(x) > 1 else x
+    if isinstance(x, bytes) and type(x) is bytes:
+        return bytes(bytearray(x)) if len(x) > 1 else x
+    if type(x) is list:
+        return [fresh(i) for i in x]
+    if type(x) is tuple:
+        return tuple(fresh(i) for i in x)
+    if type(x) is dict:
+        return {fresh(k): fresh(v) for k, v in x.items()}
+    return x
 
 
 def apply_call(w, c):
+    c = fresh(c) if c and c[0] != 'raw' else c
     k = c[0]
     if k == 'change':
         return w.new_change(encoding=c[1])
